@@ -36,6 +36,7 @@ def main():
     ms = exact.catalogue(rng, Ms=(2, 3), per_M=6 if not thorough else 12)
     for k in range(4 if not thorough else 30):
         ms.append(exact.random_model(rng, "R%d" % k, rng.choice([2, 3] if not thorough else [2, 3, 4])))
+    ms += exact.with_phases(rng, ms)[: (4 if not thorough else 24)]
     for m in ms:
         M = m["M"]
         allq = [[a, b, cc, d] for a in range(M) for b in range(M) for cc in range(M) for d in range(M)]
@@ -50,7 +51,7 @@ def main():
         pv.log("INFRA: Lehmann.tla self-check %s failed" % res.violated)
         sys.exit(2)
     betas = ["0.3", "2.0", "15.0", "400.0"] if not thorough else ["0.05", "0.3", "2.0", "15.0", "120.0", "400.0", "900.0"]   # beta |pole| up to ~2000: both overflow-avoiding branches of the tau form
-    recs, crashed = pv.run_driver_resilient(exe, [exact.scenario(m, pred[m["id"]], queries=[{"q": "index"}]) for m in ms], timeout=3000)
+    recs, crashed = exact.run_split(exe, [exact.scenario(m, pred[m["id"]], queries=[{"q": "index"}]) for m in ms], ms)
     tabs = {r["id"]: r["tab"] for r in recs if r.get("e") == "Q" and "tab" in r}
     scen = []
     for m in ms:
@@ -66,7 +67,7 @@ def main():
             taus = [mp.nstr(bb * f, 17) for f in (0, mp.mpf(1) / 7, mp.mpf(1) / 2, 1)]
             qs.append({"q": "sus", "beta": b, "quads": quads, "ns": NS, "taus": taus, "tag": b})
         scen.append(exact.scenario(m, pred[m["id"]], queries=qs))
-    recs, crashed = pv.run_driver_resilient(exe, scen, timeout=3000)
+    recs, crashed = exact.run_split(exe, scen, ms)
     byid = {}
     for r in recs:
         if r.get("e") == "Q":
@@ -82,7 +83,7 @@ def main():
         inv = {v: k for k, v in enumerate(m["_im"])}
         for r in byid.get(sc["id"], []):
             beta = r.get("tag")
-            desc = json.dumps({k: m[k] for k in ("M", "eps", "U", "rot", "bog")})
+            desc = json.dumps({k: m[k] for k in ("M", "eps", "U", "rot", "bog", "ph")})
             rep = {"model": {k: m[k] for k in m if not k.startswith("_")}, "beta": beta}
             if "sus" not in r:
                 c.violation("model %s beta=%s: susceptibility failed: %s" % (desc, beta, r.get("fail") or r.get("ex")), rep, cls="exception")
@@ -138,7 +139,7 @@ def main():
                     c.nontriv("%s %s %s" % (m["id"], q, "flip" if q[0] != q[1] else "dens"))
             if ok:
                 c.traces += 1
-    c.sample({"model": {k: ms[1][k] for k in ("M", "eps", "U", "rot", "bog")}, "quads": ms[1]["sus"][:4], "betas": betas, "n": NS})
+    c.sample({"model": {k: ms[1][k] for k in ("M", "eps", "U", "rot", "bog", "ph")}, "quads": ms[1]["sus"][:4], "betas": betas, "n": NS})
     c.rule = "exact family: %d models x %d betas x ~10 operator pairs (density-density, spin-flip, random) x 5 bosonic frequencies + 4 times x 4 subtraction modes; non-trivial = distinct (model, quadruple) with Lehmann terms" % (len(ms), len(betas))
     c.trusted = ["TLC", "tools/exact.py comparator"]
     c.assumptions = ["exact family only", "allowed deviation: 1e-9 relative + dropped-term bound over pairs of distinct levels (1e-8 each)"]
